@@ -72,4 +72,6 @@ def build(ub, algebra_text):
     bcfg = {"receivers": {}}
     for b in L1_BUILDERS:
         ub.emit_fn(CTX, b, "verify", impl="impl Context", cfg=bcfg)
+    ub.emit_fn(CTX, "bit_vec_val", "verify", impl="impl Context",
+               cfg={"receivers": {}, "replace": [["value.try_into()", "try_into_u128(value)"], ["width.try_into()", "try_into_width(width)"]]})
     ub.out("} // verus!\nfn main() {}\n")
